@@ -395,6 +395,10 @@ def startup_sweep(ctx, rep):
                     sig = "render:crash:width-huge:allocation"
                 else:
                     sig = "render-after-startup:" + (classify_failure(frc, ferr) or fclass)
+                    if sig.endswith(":hang") and "--side-by-side" in args and any(
+                            a.startswith("--wrap-max-lines") and a.split("=")[-1].isdigit() and int(a.split("=")[-1]) >= 10 ** 6
+                            for a in args):
+                        sig += ":wrap-max-lines-huge"   # rows holding only the wrap symbol, until the (huge) limit
                 rep.count("fail:" + sig)
                 rep.violation(sig, f"delta {' '.join(args)} -> rc={frc} stderr={ferr[-300:].decode('utf-8', 'replace')!r}",
                               dict(args=args, input_b64=b64(small)))
@@ -659,6 +663,8 @@ def classify_failure(rc, err):
     m = re.search(r"panicked at ([^:\n]+):(\d+)", e)
     if m:
         site = "panic:" + m.group(1)
+        if "String mismatch encountered while superimposing style sections" in e:
+            site += ":superimpose-string-mismatch"      # call site paint.rs superimpose(): a narrower signature
     elif "This should not be possible" in e or "delta_unreachable" in e:
         site = "unreachable:" + e.strip().split(".")[0][:60]
     elif rc not in (0,):
@@ -796,6 +802,10 @@ def replay(ctx, rep, obj):
         print("rc", rc, err[-400:].decode("utf-8", "replace"))
         site = classify_failure(rc, err)
         if site:
+            # keep the class the sweep that found it gave it (e.g. `render-after-startup:hang:wrap-max-lines-huge`)
+            osig = obj.get("signature", "")
+            if osig and osig.split(":")[-1] == site.split(":")[-1] or (site == "hang" and ":hang" in osig):
+                site = osig
             rep.violation(site, "replayed", c)
     else:
         cfg = M.VCfg(**c["model_cfg"])
